@@ -23,7 +23,7 @@ Definition fail (field : Z) (c : ecls) (st : dstate) : dstate :=
 
 (* nextField(advance) *)
 Definition next_field (advance : Z) (st : dstate) : dstate :=
-  if (advance <? 0) || (Z.of_nat (length (buf st)) <? advance) then fail 0 EAdvance st else
+  if (advance <? 0) || negb (has_len_z (buf st) advance) then fail 0 EAdvance st else
   let b := skipn (Z.to_nat advance) (buf st) in
   match b with
   | [] => {| pf := fieldDone; pw := pw st; buf := b; err := err st |}
@@ -41,6 +41,14 @@ Definition push_state (message : bytes) (st : dstate) : dstate :=
 Definition pop_state (outer inner : dstate) : dstate :=
   {| pf := pf outer; pw := pw outer; buf := buf outer; err := err inner |}.
 
+(* len(a) == len(b), without building the numbers *)
+Fixpoint same_len (a b : bytes) : bool :=
+  match a, b with
+  | [], [] => true
+  | _ :: a', _ :: b' => same_len a' b'
+  | _, _ => false
+  end.
+
 Section WithTarget.
 Context {T : Type}.
 Definition body := dstate -> T -> dstate * T.
@@ -51,24 +59,25 @@ Fixpoint loop (fuel : nat) (fn : body) (st : dstate) (t : T) : dstate * T :=
   match fuel with
   | O => (st, t)
   | S f =>
-      let startingLength := length (buf st) in
       let '(st1, t1) := fn st t in
       if negb (valid_number (pf st1)) then (st1, t1)
-      else if Nat.eqb (length (buf st1)) startingLength then
+      else if same_len (buf st1) (buf st) then   (* len(dec.buffer) == startingLength *)
         let n := consume_field_value (pf st1) (pw st1) (buf st1) in
         loop f fn (next_field n st1) t1
       else loop f fn st1 t1
   end.
 Definition loop_fuel (st : dstate) : nat := S (S (length (buf st))).
 
-(* Message / PresentMessage (identical bodies): fn is run by Loop on the payload *)
-Definition dec_message (field : Z) (fn : body) (st : dstate) (t : T) : dstate * T :=
+(* Message / PresentMessage (identical bodies): fn is run by Loop on the payload.
+   F is the fuel of the inner loop: any number > len(payload) + 1 (the entry point passes one
+   number, computed once from the whole input, to every loop: sub-buffers are never longer) *)
+Definition dec_message (F : nat) (field : Z) (fn : body) (st : dstate) (t : T) : dstate * T :=
   if negb (field =? pf st) then (st, t) else
   if negb (pw st =? BytesType) then (fail field EWire st, t) else
   let '(message, n) := consume_bytes (buf st) in
   if n <? 0 then (fail field EParse st, t) else
   let inner := push_state message st in
-  let '(inner', t') := loop (loop_fuel inner) fn inner t in
+  let '(inner', t') := loop F fn inner t in
   (next_field n (pop_state st inner'), t').
 
 (* RepeatedMessage: fn is called directly (the callback runs c.Loop itself) *)
